@@ -154,14 +154,10 @@ macro_rules! array_string {
         }
 
         // get shape
-        let shape = array_parse_shape!(ndim, string.clone());
+        let shape = array_parse_shape!(ndim, _string);
 
         // get array elements
-        let elems = string
-            .replace("[", "").replace("]", "").replace("\"", "")
-            .split(",")
-            .map(|e| e.to_string())
-            .collect::<Vec<_>>();
+        let elems = string_elems;
 
         // return array
         Array::<String>::new(elems, shape)
